@@ -93,7 +93,7 @@ func c03Case(f *evid.Flags, idx int, hits *[9]map[string]int) *gen.Program {
 	r := rng.New(f.Seed, 0xc03, uint64(idx))
 	g := &gen.G{R: r, Hits: hits}
 	g.V = gen.V{R: r}
-	g.P = gen.Profile{Modelled: true, UniqueKeys: true, MaxDepth: 3}
+	g.P = gen.Profile{Modelled: true, UniqueKeys: true, MaxDepth: 3, UpdateAnywhere: true}
 	st := g.RandomSettings(idx%3 == 0)
 	g.S = &st
 	maxChain := 6
